@@ -89,6 +89,7 @@ type seqSpec struct {
 	Ref   int    `json:"copy_of_ref"`    // which reference the copy was made from
 	RC    bool   `json:"reverse_strand"` // the copy sits on the reverse strand
 	Start int    `json:"copy_start"`     // where the copy starts (in the strand that holds it)
+	Junk  bool   `json:"no_start_codon,omitempty"`
 }
 
 type phaseCase struct {
@@ -142,6 +143,23 @@ func genPhaseCase(r *gen.Rand, maxSeqs int) phaseCase {
 			}
 		}
 		pc.Seqs = append(pc.Seqs, sp)
+	}
+	if r.Chance(0.12) {
+		// a sequence that aligns with no reference: no start codon on either strand (possible since fix de7c5c4:
+		// such a sequence is reported as removed, with its frame 0 translation under the chosen genetic code).
+		// Codons that read differently under the three codes are favoured.
+		for try := 0; try < 20; try++ {
+			var b strings.Builder
+			for k := r.Range(6, 20); k > 0; k-- {
+				b.WriteString(r.PickStr([]string{"TGA", "AGA", "AGG", "ATA", "CCC", "GGT", "TTA", "ACA", "TGA", "AGA"}))
+			}
+			j := b.String()
+			if strings.Contains(j, "ATG") || strings.Contains(j, "CAT") {
+				continue
+			}
+			pc.Seqs = append(pc.Seqs, seqSpec{Name: "junk", Seq: j, Start: -1, Ref: -1, Junk: true})
+			break
+		}
 	}
 	return pc
 }
@@ -411,6 +429,40 @@ func runPhase(c *mon.Case) {
 	}
 	if snapshot(orfs) != so || snapshot(seqs) != ss {
 		c.Failf("input-modified", "Phase changed its input: references %v, sequences %v", snapshot(orfs) != so, snapshot(seqs) != ss)
+	}
+	// one phaser object serving several sets in a row (a caller phasing the files of a directory): the set under
+	// test, then a set it reports an error for (a 4 nucleotide read cannot be translated), then the set under
+	// test again - which must come out as it did the first time
+	if !hasErr && !c.Failed() && c.R.Chance(0.3) {
+		ph := pc.phaser(cpusB)
+		runOn := func(sq align.SeqBag) ([]res, error) {
+			ch, err := ph.Phase(orfs, sq)
+			if err != nil {
+				return nil, err
+			}
+			return drain(ch), nil
+		}
+		r1, e1 := runOn(seqs)
+		bad := mkBag([]string{"short", pc.Seqs[0].Name}, []string{"ATGA", pc.Seqs[0].Seq})
+		r2, e2 := runOn(bad)
+		refused := e2 != nil
+		for _, x := range r2 {
+			refused = refused || x.Err != ""
+		}
+		r3, e3 := runOn(seqs)
+		k1, k3 := sortedKeys(r1), sortedKeys(r3)
+		anyErr := e1 != nil || e3 != nil
+		for _, x := range append(append([]res{}, r1...), r3...) {
+			anyErr = anyErr || x.Err != ""
+		}
+		switch {
+		case anyErr:
+			c.Count("phaser-reuse:run-with-reported-error")
+		case strings.Join(k1, "\n") != strings.Join(kb, "\n") || strings.Join(k3, "\n") != strings.Join(kb, "\n"):
+			c.Failf("phaser-reuse:result-set-differs", "one phaser object, cpus=%d, translate=%v: the set gives %d results on a fresh object, %d on the first call of a re-used object and %d after a call on a set holding a 4 nucleotide read (refused: %v)\nfresh:\n%s\n---\nthird call:\n%s", cpusB, pc.Translate, len(kb), len(k1), len(k3), refused, strings.Join(kb, "\n"), strings.Join(k3, "\n"))
+		default:
+			c.Count(fmt.Sprintf("phaser-reuse:refused-set-in-between=%v", refused))
+		}
 	}
 	c.Count(fmt.Sprintf("translate:%v", pc.Translate))
 	c.Count(fmt.Sprintf("reverse:%v", pc.Reverse))
@@ -1179,6 +1231,7 @@ func main() {
 	mon.Floor("faults:kind:2", 5)
 	cliFloors()
 	mon.Floor("concurrent:calls", 500)
+	mon.Floor("phaser-reuse:refused-set-in-between=true", 300)
 	mon.Main("C16", []mon.Sub{
 		{Name: "witness", Quick: 3, Thorough: 3, Run: runWitness},
 		{Name: "phase", Quick: 3000, Thorough: 150000, Run: runPhase},
